@@ -19,13 +19,13 @@ def main(run: Run) -> int:
         for s1 in range(2):
             jobs.append({"fn": "history", "globals": {"STEPS": 1, "MAXSIZE": 0, "NS": 2, "EDIT_SET": tuple(range(11)), "FIX": (o1, s1)}, "timeout": 300, "bound": "1 step (call x string x 11 in-place edits) + final parse (2 parsers x 2 strings)"})
     # two-step histories
-    es2 = tuple(range(11)) if thorough else (0, 1, 4, 9)
+    es2 = (0, 1, 2, 4, 7, 9, 10) if thorough else (0, 1, 4, 9)
     for o1 in range(4):
         for s1 in range(2):
             for o2 in range(4):
                 jobs.append({"fn": "history", "globals": {"STEPS": 2, "MAXSIZE": 0, "NS": 2, "EDIT_SET": es2, "FIX": (o1, s1, o2)}, "timeout": 600, "bound": f"2 steps (edits {es2}) + final parse"})
     if thorough:
-        for o1 in range(4):
+        for o1 in range(2):  # three steps: the first one is a plain parse call (condition / AHB)
             for s1 in range(2):
                 for o2 in range(4):
                     for s2 in range(2):
